@@ -295,7 +295,7 @@ func runC14(c *Check) {
 		}
 	}
 	if fn := c.Fn("R4", "spynode.(*Node).CleanupBlock"); fn != nil {
-		txids := paramNamed(fn, "txids")
+		txids := paramAt(fn, "txids", 2)
 		okT, okU := false, false
 		for _, s := range callsTo(fn, "(*state.TxTracker).RemoveList") {
 			if a := s.Args(); len(a) == 2 && a[1] == ssa.Value(txids) {
